@@ -4,7 +4,7 @@
 
 #[cfg(kani)]
 #[path = "/verif/harness/shim/mod_queue.rs"]
-mod verif_shim;
+pub(crate) mod verif_shim;
 
 mod atomic;
 
